@@ -39,7 +39,7 @@ struct Format : Profile {
     {
         return {"image-at-close", "image-at-sync", "linked-element", "linked-multi-table", "external-element", "compressed-element", "chunked-element",
                 "datainfo-linked", "datainfo-short-array", "vdata-record-checked", "vgroup-record-checked", "alias", "dd-blocks>1", "sd-datainfo", "gr-datainfo", "sd-values-checked", "gr-values-checked", "sd-attr-datainfo", "sd-ann-datainfo", "sd-ann-datainfo-short-array",
-                "an-datainfo"};
+                "an-datainfo", "session-view-compared", "vg-member-deleted"};
     }
 
     Plan generate(Rng &rng, bool thorough, uint64_t) override
@@ -369,6 +369,8 @@ struct Format : Profile {
         std::string          why;
         if (!x || !rd.content(*x, raw, why))
             return; // no data yet, or a coder the independent reader does not decode
+        if (raw.empty())
+            return; // an element that holds no byte yet is "no data yet" as well (a read in a write session may have reserved it)
         size_t es = (size_t)DFKNTsize(nt & ~(DFNT_NATIVE | DFNT_LITEND));
         if (es == 0 || es > 8)
             return;
@@ -560,6 +562,26 @@ struct Format : Profile {
             Hclose(fid);
     }
 
+    // transcript hash of every read-all op (0 for an object that is not there); read failures are violations
+    std::vector<uint64_t> read_everything(Ctx &ctx, Mixed &mx)
+    {
+        std::vector<Op> reads;
+        MixedGen::read_all(reads);
+        std::vector<uint64_t> out;
+        for (auto &o : reads) {
+            if (o.kind == "end")
+                break;
+            uint64_t before   = ctx.st.transcript;
+            ctx.st.transcript = 1469598103934665603ULL;
+            mx.run(o);
+            out.push_back(mx.absent ? 0 : ctx.st.transcript);
+            ctx.st.transcript = fnv64i(ctx.st.transcript, before);
+            if (mx.call_failed)
+                ctx.fail("read-failed", std::string("read-failed:") + mx.failed_call, strf("%s failed while reading everything back (%s)", mx.failed_call.c_str(), o.kind.c_str()));
+        }
+        return out;
+    }
+
     void execute(Ctx &ctx) override
     {
         const Plan &p = ctx.plan;
@@ -570,6 +592,10 @@ struct Format : Profile {
         for (size_t i = 0; i < p.ops.size(); i++) {
             ctx.begin_op((int)i);
             const Op &o = p.ops[i];
+            std::vector<uint64_t> seen_in_session;
+            bool                  compare_views = o.kind == "end" && mx.on_disk && !mx.call_failed;
+            if (compare_views)
+                seen_in_session = read_everything(ctx, mx); // what the session sees of every object just before it ends
             if (mx.run(o))
                 ctx.st.ops_done++;
             else
@@ -591,6 +617,23 @@ struct Format : Profile {
                 structural(ctx, im, "after the session was closed");
                 differential(ctx, im, mx.path);
                 ctx.probe("image-at-close");
+                if (compare_views) {
+                    // ... is what a new session reads from the closed file: nothing the session was shown is lost at close
+                    int32 keep  = mx.acc_mode;
+                    mx.acc_mode = DFACC_READ;
+                    std::vector<uint64_t> seen_after = read_everything(ctx, mx);
+                    mx.end_session();
+                    mx.acc_mode = keep;
+                    std::vector<Op> reads;
+                    MixedGen::read_all(reads);
+                    for (size_t q = 0; q < seen_in_session.size() && q < seen_after.size(); q++)
+                        if (seen_in_session[q] != seen_after[q])
+                            ctx.fail("session-view-lost", "session-view-lost:" + reads[q].kind,
+                                     strf("read-all op %zu (%s %lld %lld): what the session read just before it closed the file differs from what a new "
+                                          "session reads from the closed file",
+                                          q, reads[q].kind.c_str(), (long long)reads[q].arg(0), (long long)reads[q].arg(1)));
+                    ctx.probe("session-view-compared");
+                }
                 ctx.state(fnv64(im.rd.f.data(), std::min<size_t>(im.rd.f.size(), 4096)));
             }
         }
